@@ -1359,9 +1359,50 @@ func c10(c *core.Ctx) {
 	c.Run("vote-writers", func() { c11Writers(c) })
 	c.Run("vote-guards", func() { c11Guards(c) })
 
+	c.Clause("C10.12", "the persisted candidate record is as long as its head says: in CandidateCache.Set every update of the in-memory position index (address → offset, length) is dominated by a binary.Write of a record head into CandidateBuf, the buffer that is flushed to context.data and parsed by its heads after a restart; an index entry whose length exists in memory only makes the reloaded list differ from (or fail to load on) a node that restarts")
+	c.Run("candidate-head-written-with-index", func() { c10CandidateHeadWritten(c) })
+
 	c.NotDecidedf("that the incremental updateTop (four branches on list fullness and movement of the minimum) yields the same list as a full sort of all registered candidates over a history of blocks — arithmetic on runtime lists, not decided")
 	c.NotDecidedf("that the list after a restart equals the list of a node that never stopped (the persisted candidate file versus the in-memory index as values); only the structural repopulation of the index is decided")
 	c.NotDecidedf("that candidates unregistered in EARLIER blocks leave the all-candidates index (CandidateTrieDB has no delete): C10.8 only decides the filter for the current block's unregister set")
 	c.NotDecidedf("non-emptiness of the snapshot list (NewTermRecord's third panic) — it depends on the number of registered candidates and DeputyCount at run time")
 	c.NotDecidedf("that Top of the parent block is itself correct at the time Seal/verifyDeputy read it; node-id / profile values of the deputies (read from account state)")
+}
+
+// c10CandidateHeadWritten: C10.12.
+func c10CandidateHeadWritten(c *core.Ctx) {
+	fn := c.Fn("store.CandidateCache.Set")
+	idx := c.FieldVar("store.CandidateCache", "Candidates")
+	buf := c.FieldVar("store.CandidateCache", "CandidateBuf")
+	var heads []ssa.CallInstruction
+	for _, ci := range core.AllCalls(fn) {
+		callee := ci.Common().StaticCallee()
+		if callee == nil || callee.Pkg == nil || callee.Pkg.Pkg.Path() != "encoding/binary" || callee.Name() != "Write" || len(ci.Common().Args) < 3 {
+			continue
+		}
+		if core.SliceHasField(core.Slice(ci.Common().Args[0]), buf) {
+			heads = append(heads, ci)
+		}
+	}
+	n := 0
+	for _, b := range fn.Blocks {
+		for _, in := range b.Instrs {
+			mu, ok := in.(*ssa.MapUpdate)
+			if !ok {
+				continue
+			}
+			if _, f, isLd := core.FieldLoad(mu.Map); !isLd || f != idx {
+				continue
+			}
+			n++
+			ok = false
+			for _, h := range heads {
+				if core.Dominates(h, mu) {
+					ok = true
+				}
+			}
+			c.Check("CandidateCache.Set:index-update"+seqSuffix(n)+":head-written", "pairing", ok, mu.Pos(), "CandidateCache.Set updates the position index; a binary.Write of the record head into CandidateBuf dominates the update (%d head writes found)", len(heads))
+		}
+	}
+	c.Floor("CandidateCache.Set/index-updates", n, 2)
 }
